@@ -286,6 +286,34 @@ def run(ctx):
         oracle.add(r, insts, version, bound)
         if rnd.random() < 0.3 and len(words) > 6:      # the error side: same text of the error
             w2 = list(words); w2[rnd.randrange(5, len(w2))] = rnd.choice([0, 0xffffffff, 0x10000]); reqs.append("disasbin " + instgen.to_bytes(w2).hex())
+    # hand-made modules (disasraw): every generator id with a name (and unknown ones), every version byte pair, and the
+    # fall-back arms of the module walk that no loaded module reaches (OpConstant with a non-literal / no operand under a
+    # tracked type, OpExtInst with fewer than two operands or a non-literal instruction number under an imported set)
+    E = {r["name"]: r for r in g.core}
+    raw = []
+    for tool in list(range(0, 18)) + [0xffff, 255]:
+        for low in (0, 1):
+            raw.append(f"disasraw {0x00010000 | (tool % 7) << 8} {(tool << 16) | low} {tool + 1} - - -")
+    lit, idref, ext = g.vix["LiteralBit32"], g.vix["IdRef"], g.vix["LiteralExtInstInteger"]
+    ty_int = instgen.Inst(g.opv["TypeInt"], "TypeInt", None, 1, [instgen.Op("w", lit, 32), instgen.Op("w", lit, 1)])
+    ty_f64 = instgen.Inst(g.opv["TypeFloat"], "TypeFloat", None, 2, [instgen.Op("w", lit, 64)])
+    imp = instgen.Inst(g.opv["ExtInstImport"], "ExtInstImport", None, 9, [instgen.Op("s", g.vix["LiteralString"], list(b"GLSL.std.450"))])
+    # exactly one operand: `disas_constant` starts with `debug_assert_eq!(inst.operands.len(), 1)` — a hand-made OpConstant
+    # with none or two operands panics in debug builds; neither the loader nor a typed Builder method produces one (DESIGN §11.5)
+    consts = [[instgen.Op("w", idref, 7)], [instgen.Op("s", g.vix["LiteralString"], list(b"x"))],
+              [instgen.Op("q", g.vix["LiteralBit64"], 1 << 63)], [instgen.Op("w", lit, 0x80000000)]]
+    for t in (1, 2, 77):
+        for ops in consts:
+            c = instgen.Inst(g.opv["Constant"], "Constant", t, 5, ops)
+            raw.append(f"disasraw 65536 983040 10 - {ty_int.text()}/{ty_f64.text()}/{c.text()} -")
+    exts = [[], [instgen.Op("w", idref, 9)], [instgen.Op("w", idref, 9), instgen.Op("w", lit, 6)],
+            [instgen.Op("w", lit, 9), instgen.Op("w", ext, 6)], [instgen.Op("w", idref, 9), instgen.Op("w", ext, 6), instgen.Op("w", idref, 3)],
+            [instgen.Op("w", idref, 9), instgen.Op("w", ext, 9999)], [instgen.Op("w", idref, 8), instgen.Op("w", ext, 6)]]
+    for ops in exts:
+        x = instgen.Inst(g.opv["ExtInst"], "ExtInst", 1, 6, ops)
+        raw.append(f"disasraw 65536 983040 10 {imp.text()} - {x.text()}")
+        raw.append(f"disasraw 65536 983040 10 - - {x.text()}")
+    reqs += raw
     if broken:
         found = C.oracle_search(ctx, reqs, oracle, "disas")
         ctx.log(f"tie broken; oracle search on the implementation found a failing input: {found}")
@@ -300,7 +328,8 @@ def run(ctx):
                 m = re.search(r"Op[A-Za-z0-9]+", ln)
                 if m:
                     ctx.distinct.add(m.group(0))
-    ctx.coverage["requests"] = {"corpus": ncorpus, "operand": nop, "instruction": ninst, "module": len(reqs) - ncorpus - nop - ninst}
+    ctx.coverage["requests"] = {"corpus": ncorpus, "operand": nop, "instruction": ninst, "module": len(reqs) - ncorpus - nop - ninst - len(raw),
+                                "hand-made module": len(raw)}
     ctx.coverage["responses"] = kinds
     ctx.samples = [{"request": reqs[i][:80], "implementation_text": unhex_text(impl[i])[:160]} for i in (ncorpus + 3, ncorpus + nop + 5, len(reqs) - 2)]
     ctx.assumptions += [
